@@ -103,7 +103,19 @@ Items == <<
   \* 49: h4|: []
   [field |-> <<104, 52>>, chain |-> <<>>, vals |-> <<>>, single |-> FALSE],
   \* 50: h5|expand: 'x\\%a\\%'
-  [field |-> <<104, 53>>, chain |-> <<<<101, 120, 112, 97, 110, 100>>>>, vals |-> <<SS(<<120, 92, 37, 97, 92, 37>>)>>, single |-> TRUE]
+  [field |-> <<104, 53>>, chain |-> <<<<101, 120, 112, 97, 110, 100>>>>, vals |-> <<SS(<<120, 92, 37, 97, 92, 37>>)>>, single |-> TRUE],
+  \* 51: Hashes|: 'MD5=aa11'
+  [field |-> <<72, 97, 115, 104, 101, 115>>, chain |-> <<>>, vals |-> <<SS(<<77, 68, 53, 61, 97, 97, 49, 49>>)>>, single |-> TRUE],
+  \* 52: Hashes|contains|all: ['MD5=aa11', 'sha1=bb22']
+  [field |-> <<72, 97, 115, 104, 101, 115>>, chain |-> <<<<99, 111, 110, 116, 97, 105, 110, 115>>, <<97, 108, 108>>>>, vals |-> <<SS(<<77, 68, 53, 61, 97, 97, 49, 49>>), SS(<<115, 104, 97, 49, 61, 98, 98, 50, 50>>)>>, single |-> FALSE],
+  \* 53: Hashes|neq: ['SHA1=cc33', 'MD5=dd44']
+  [field |-> <<72, 97, 115, 104, 101, 115>>, chain |-> <<<<110, 101, 113>>>>, vals |-> <<SS(<<83, 72, 65, 49, 61, 99, 99, 51, 51>>), SS(<<77, 68, 53, 61, 100, 100, 52, 52>>)>>, single |-> FALSE],
+  \* 54: Hash|contains: 'IMPHASH=ee55'
+  [field |-> <<72, 97, 115, 104>>, chain |-> <<<<99, 111, 110, 116, 97, 105, 110, 115>>>>, vals |-> <<SS(<<73, 77, 80, 72, 65, 83, 72, 61, 101, 101, 53, 53>>)>>, single |-> TRUE],
+  \* 55: |windash: '-kw'
+  [field |-> <<>>, chain |-> <<<<119, 105, 110, 100, 97, 115, 104>>>>, vals |-> <<SS(<<45, 107, 119>>)>>, single |-> TRUE],
+  \* 56: |cased: 'Kw'
+  [field |-> <<>>, chain |-> <<<<99, 97, 115, 101, 100>>>>, vals |-> <<SS(<<75, 119>>)>>, single |-> TRUE]
 >>
 KwLists == <<
   <<SS(<<102, 111, 111>>), SS(<<98, 97, 42, 114>>)>>,
